@@ -1,4 +1,5 @@
 import RepeVerif.Lemmas.Fleet
+import RepeVerif.Props.C06
 import RepeVerif.Gen.Fleet
 /-!
 # C19 — Fleet calls retry only transport failures, boundedly, and recover afterwards
@@ -23,6 +24,8 @@ clause → theorem
 * what a dead cached client of each fleet yields is in its table ..... `C19.dead_client_error_retryable`   (F4)
 * a transport failure never leaves the node wedged ................... `C19.never_wedged`
 * … so a later attempt or call reconnects and succeeds ............... `C19.recovers`, `C19.recovers_after_any_history`
+* … and those kinds are exactly what the client model (C06) allows ... `C19.dead_kinds_from_client_model_blocking`,
+                                                                         `…_async`, `…_async_race`, `C19.dead_kinds_are_exactly_the_model_outcomes`
 * broadcast addresses exactly the nodes carrying all requested tags .. `C19.broadcast_targets`
 * exactly one result per addressed node .............................. `C19.broadcast_one_result_each`
 
@@ -253,6 +256,84 @@ theorem recovers_after_any_history (P : Policy) (hP : P ∈ policies) (lf : Loop
 
 example : cacheAfter Gen.Fleet.loopJson .none
     [(Gen.Fleet.policy, 2, [.silent, .refused]), (Gen.Fleet.asyncPolicy, 1, [.malformed])] = .dead := by
+  decide
+
+/-! ### composition with C06 (the multiplexing clients under the fleet)
+
+`Gen.Fleet.deadKinds` / `asyncDeadKinds` are extracted; why there are exactly those alternatives is a
+theorem of the client model (`Model/Mux.lean`, property C06): a call on a connection whose failure path
+has run returns `writeErr` (blocking: the write on the socket the response loop shut down) or `connErr`
+(async: the registration is refused), and a call racing with the failure path one of the two.  The two
+outcome classes are mapped to `io::ErrorKind`s: `writeErr` ↦ `BrokenPipe` (Linux: `EPIPE` after a local
+shutdown — trusted), `connErr` ↦ the kind of `connection_failed_error` (extracted `refusalKind`). -/
+
+/-- `io::ErrorKind` of a C06 outcome of a call on a failed connection. -/
+def kindOfDeadOutcome (refusal : Option IoKind) : Repe.Mux.Outcome → Option IoKind
+  | .writeErr => some .brokenPipe
+  | .connErr => refusal
+  | _ => none
+
+/-- **Blocking `Client` under `Fleet`.** In every reachable state of the client model whose failure
+path has finished (any interleaving of callers, reader and `fail_all_pending`), the next call returns an
+outcome whose error kind is a member of the extracted set `Gen.Fleet.deadKinds` and is retryable in
+`Fleet`'s table — so the fleet drops the dead client (`never_wedged`, `recovers`). Uses
+`C06.dead_connection_outcome` and `C06.dead_connection_outcome_by_client`. -/
+theorem dead_kinds_from_client_model_blocking (s : Repe.Mux.State)
+    (hs : Repe.Mux.Reachable Gen.Mux.blockingCfg s) (g : Nat) (hf : s.reader = .finished g) (c : Nat)
+    (hc : (s.calls c).pc = .idle) :
+    ∃ o k, ((Repe.Mux.run Gen.Mux.blockingCfg s [.alloc c, .register c, .write c, .cleanup c]).calls c).pc = .returned o ∧
+      kindOfDeadOutcome Gen.Fleet.refusalKind o = some k ∧ k ∈ Gen.Fleet.deadKinds ∧
+      Gen.Fleet.policy.retryable (.io k) = true := by
+  have h := C06.dead_connection_outcome Gen.Mux.blockingCfg (by decide) (by decide) (by decide) s hs g hf c hc
+  have hb : ¬ (Repe.Mux.FailStep.closeAndDrain ∈ Gen.Mux.blockingCfg.failOrder) := by decide
+  rw [if_neg hb] at h
+  exact ⟨.writeErr, .brokenPipe, h, rfl, by decide, by decide⟩
+
+/-- **`AsyncClient` under `AsyncFleet`**, settled case: the registration is refused; the kind of that
+refusal is in `Gen.Fleet.asyncDeadKinds` and retryable in `AsyncFleet`'s table. -/
+theorem dead_kinds_from_client_model_async (s : Repe.Mux.State)
+    (hs : Repe.Mux.Reachable Gen.Mux.asyncCfg s) (g : Nat) (hf : s.reader = .finished g) (c : Nat)
+    (hc : (s.calls c).pc = .idle) :
+    ∃ o k, ((Repe.Mux.run Gen.Mux.asyncCfg s [.alloc c, .register c, .write c, .cleanup c]).calls c).pc = .returned o ∧
+      kindOfDeadOutcome Gen.Fleet.asyncRefusalKind o = some k ∧ k ∈ Gen.Fleet.asyncDeadKinds ∧
+      Gen.Fleet.asyncPolicy.retryable (.io k) = true := by
+  have h := C06.dead_connection_outcome Gen.Mux.asyncCfg (by decide) (by decide) (by decide) s hs g hf c hc
+  have hb : Repe.Mux.FailStep.closeAndDrain ∈ Gen.Mux.asyncCfg.failOrder := by decide
+  rw [if_pos hb] at h
+  exact ⟨.connErr, .notConnected, h, by decide, by decide, by decide⟩
+
+/-- **The race.** A call that has not registered when the async client's reader does its last drain
+(it may be anywhere between "connection marked failed" and "writer shut down") returns `connErr` or
+`writeErr` (`C06.late_caller_fails`); both map into `Gen.Fleet.asyncDeadKinds` and both are retryable:
+the set has exactly the alternatives the client model allows, and whichever the scheduler picks, the
+fleet invalidates. -/
+theorem dead_kinds_from_client_model_async_race (s : Repe.Mux.State)
+    (hs : Repe.Mux.Reachable Gen.Mux.asyncCfg s) (hp : Repe.Mux.PostDrain s) (c : Nat)
+    (hpc : (s.calls c).pc = .active) (hreg : (s.calls c).reg = false) (hw : (s.calls c).wrote = false) :
+    ∃ o k, ((Repe.Mux.run Gen.Mux.asyncCfg s [.register c, .write c, .cleanup c]).calls c).pc = .returned o ∧
+      kindOfDeadOutcome Gen.Fleet.asyncRefusalKind o = some k ∧ k ∈ Gen.Fleet.asyncDeadKinds ∧
+      Gen.Fleet.asyncPolicy.retryable (.io k) = true := by
+  obtain ⟨o, ho, h⟩ := C06.late_caller_fails Gen.Mux.asyncCfg (by decide) (by decide) (by decide) s hs hp c hpc hreg hw
+  rcases ho with rfl | rfl
+  · exact ⟨.connErr, .notConnected, h, by decide, by decide, by decide⟩
+  · exact ⟨.writeErr, .brokenPipe, h, by decide, by decide, by decide⟩
+
+/-- Conversely every member of the extracted sets is the image of an outcome the client model allows. -/
+theorem dead_kinds_are_exactly_the_model_outcomes :
+    (∀ k ∈ Gen.Fleet.deadKinds, ∃ o, (o = .connErr ∨ o = .writeErr) ∧ kindOfDeadOutcome Gen.Fleet.refusalKind o = some k) ∧
+    (∀ k ∈ Gen.Fleet.asyncDeadKinds, ∃ o, (o = .connErr ∨ o = .writeErr) ∧ kindOfDeadOutcome Gen.Fleet.asyncRefusalKind o = some k) := by
+  refine ⟨?_, ?_⟩
+  · intro k hk
+    have : k = .brokenPipe := by revert k; decide
+    subst this; exact ⟨.writeErr, .inr rfl, rfl⟩
+  · intro k hk
+    have : k = .notConnected ∨ k = .brokenPipe := by revert k; decide
+    rcases this with rfl | rfl
+    · exact ⟨.connErr, .inl rfl, by decide⟩
+    · exact ⟨.writeErr, .inr rfl, rfl⟩
+
+/-- The hypotheses are met: the failure path of either client does finish. -/
+example : (Repe.Mux.run Gen.Mux.asyncCfg Repe.Mux.State.init (.readErr :: List.replicate 12 .failStep)).reader = .finished 0 := by
   decide
 
 /-! ### broadcast -/
